@@ -435,7 +435,7 @@ pub fn constructed(rng: &mut Rng, n: usize, out: &mut Vec<Tagged>) {
                 // en passant: enemy pawn that just double-stepped, own pawns beside it, sliders and the
                 // own king on the rank / diagonals / file involved
                 tag = "en-passant";
-                let f = rng.below(8) as usize;
+                let f = if rng.chance(1, 3) { *rng.pick(&[0usize, 7]) } else { rng.below(8) as usize };
                 let (pr, tr) = if white { (4usize, 5usize) } else { (3usize, 2usize) };
                 place(&mut sq, pr * 8 + f, if white { b'p' } else { b'P' });
                 ep = Some(f as u8);
@@ -444,6 +444,19 @@ pub fn constructed(rng: &mut Rng, n: usize, out: &mut Vec<Tagged>) {
                 }
                 if f < 7 && rng.chance(3, 4) {
                     place(&mut sq, pr * 8 + f + 1, if white { b'P' } else { b'p' });
+                }
+                // wrap-around bait: own pawns at the far edge of the capture rank and of the ranks next to it (a table or
+                // shift that wraps across the board edge makes them "adjacent" to an a- or h-file marker)
+                if rng.chance(1, 2) {
+                    for e in [0usize, 7] {
+                        if e != f && rng.chance(2, 3) {
+                            place(&mut sq, pr * 8 + e, if white { b'P' } else { b'p' });
+                        }
+                    }
+                    if rng.chance(1, 3) {
+                        let r2 = if white { pr - 1 } else { pr + 1 };
+                        place(&mut sq, r2 * 8 + *rng.pick(&[0usize, 7]), if white { b'P' } else { b'p' });
+                    }
                 }
                 let _ = tr;
                 // own king: often on the same rank, or on a diagonal/file through the involved squares
